@@ -10,6 +10,9 @@ let int_of_n = function N0 -> 0 | Npos p -> int_of_pos p
 let rec nat_of_int n = if n <= 0 then O else S (nat_of_int (n - 1))
 let rec int_of_nat = function O -> 0 | S n -> 1 + int_of_nat n
 
+let z_of_int n = if n = 0 then Z0 else if n > 0 then Zpos (pos_of_int n) else Zneg (pos_of_int (-n))
+let int_of_z = function Z0 -> 0 | Zpos p -> int_of_pos p | Zneg p -> - (int_of_pos p)
+
 let unhex s =
   if s = "-" then [] else begin
     let n = String.length s / 2 in
@@ -29,6 +32,31 @@ let handle cmd args =
                    | B64Ok o -> "S " ^ hex o | B64Err -> "N" | B64Bound -> "BOUND")
   | "qp", [s] -> "S " ^ hex (cview (quoted_printable_decode (unhex s)))
   | "r2047", [s] -> "S " ^ hex (cview (rfc2047_decode (unhex s)))
+  | "pathjoin", [siz; d; f] ->
+      (match pathjoin (nat_of_int (int_of_string siz)) (unhex d) (unhex f) with Some r -> "S" ^ hex r | None -> "N")
+  | "pathslice", [siz; b; e; p] ->
+      (match pathslice (unhex p) (nat_of_int (int_of_string siz)) (z_of_int (int_of_string b)) (z_of_int (int_of_string e)) with
+       | Some r -> "S" ^ hex r | None -> "N")
+  | "flags", [name] ->
+      (match flags_parse (unhex name) with
+       | None -> "E"
+       | Some mf -> (match flags_str mf (nat_of_int 64) with Some s -> "F" ^ hex s | None -> "FE"))
+  | "msgflags", [name; src; dst; extra] ->
+      (* flags of the file name, then "flags" action letters, then the subdir transition *)
+      let sd s = if s = "new" then SubNew else SubCur in
+      (match flags_parse (unhex name) with
+       | None -> "E"
+       | Some mf -> (match flags_set_all mf (unhex extra) with
+                     | None -> "E"
+                     | Some mf' -> (match msgflags (sd src) (sd dst) mf' with Some s -> "F" ^ hex s | None -> "FE")))
+  | "genname", [ts; pid; count; host; flags; existing] ->
+      (* existing: comma separated hex names *)
+      let ex = if existing = "-" then [] else List.map unhex (String.split_on_char ',' existing) in
+      let exists_ n = List.mem n ex in
+      (match genname_loop (nat_of_int 300) exists_ (n_of_int (int_of_string ts)) (n_of_int (int_of_string pid))
+               (n_of_int (int_of_string count)) (unhex host) (unhex flags) (nat_of_int 256) O with
+       | GenOk (n, t) -> "S" ^ hex n ^ " " ^ string_of_int (int_of_nat t)
+       | GenTooLong -> "TOOLONG" | GenFuel -> "FUEL")
   | "msg", file :: _name :: ops ->
       (match parse_message (unhex file) with
        | None -> "FUEL"
